@@ -65,17 +65,28 @@ Proof.
     pose proof (res_avail_nonneg v1 n i A2) as Hnn.
     destruct (IH v1 A2 Hq' H) as [B1 [v' [B2 B3]]]. split.
     + intros n2 i2 q2 [E|Hin]; [injection E as <- <- <-; lia|]. specialize (B1 _ _ _ Hin). specialize (A5 n2 i2). lia.
-    + unfold res_allocate. assert (E1 : res_avail v n i <? q = false) by lia. rewrite E1, (A4 eq_refl). eauto.
+    + unfold res_allocate. assert (E0 : q <? 0 = false) by lia. assert (E1 : res_avail v n i <? q = false) by lia.
+      rewrite E0, E1, (A4 eq_refl). eauto.
 Qed.
-Lemma w_place_ok : forall w s, fits w s = true -> 1 <= s_bs s -> res_nonneg (w_res w) -> res_nonneg (s_res s) ->
-  exists w1, w_place w s = Ok w1 /\ res_nonneg (w_res w1).
+Lemma w_place_ok : forall w s ts, fits w s = true -> 1 <= s_bs s -> res_nonneg (w_res w) -> res_nonneg (s_res s) ->
+  (forall i, In i ts -> ~ In i (w_placed w)) -> NoDup ts ->
+  exists w1, w_place w s ts = Ok w1 /\ res_nonneg (w_res w1) /\ w_placed w1 = w_placed w ++ ts.
 Proof.
-  intros w s Hf Hb Hw Hs. unfold w_place. destruct (s_bs s <? 1) eqn:E; [lia|].
+  intros w s ts Hf Hb Hw Hs Hc Hd. unfold w_place. destruct (s_bs s <? 1) eqn:E; [lia|].
+  assert (E1 : existsb (fun i => zmem i (w_placed w)) ts = false).
+  { destruct (existsb _ ts) eqn:Ex; [|reflexivity]. apply existsb_exists in Ex. destruct Ex as [i [Hi Hm]]. apply zmem_iff in Hm. exfalso. apply (Hc i); assumption. }
+  assert (E2 : znodup ts = true) by (apply znodup_iff; assumption). rewrite E1, E2. cbn [negb orb].
   unfold fits, res_gt in Hf. destruct (play_allocate (s_res s) (w_res w) Hw Hs Hf) as [Hq [v' [Hv Hn]]].
   unfold res_allocate_multiple. destruct (existsb _ (s_res s)) eqn:Ex.
   - apply existsb_exists in Ex. destruct Ex as [[[n i] q] [Hin Hlt]]. specialize (Hq _ _ _ Hin). lia.
-  - rewrite Hv. eexists. split; [reflexivity|assumption].
+  - rewrite Hv. eexists. split; [reflexivity|]. split; [assumption|reflexivity].
 Qed.
+(* no request of the list is placed on the worker *)
+Definition clear (w : worker) (l : list task) : Prop := forall t, In t l -> ~ In (t_id t) (w_placed w).
+Definition w_good (w : worker) (l : list task) : Prop := res_nonneg (w_res w) /\ clear w l.
+Definition pools_good (ps : list pool) (l : list task) : Prop := Forall (fun p => Forall (fun w => w_good w l) (p_workers p)) ps.
+Lemma w_good_incl : forall w l l', incl l' l -> w_good w l -> w_good w l'.
+Proof. intros w l l' Hi [H1 H2]. split; [assumption|]. intros t Ht. apply H2. apply Hi. assumption. Qed.
 
 (* ------------------------------------------------------------------ the deque entries describe the current queues *)
 Definition fresh (st : cw_state) (x : Z * list strategy) : Prop :=
@@ -120,18 +131,19 @@ Proof.
 Qed.
 
 Lemma infer_loop_ok : forall wd fuel ls now pid w st e acc,
-  world_wf wd -> bs_pos wd -> world_nonneg wd -> res_nonneg (w_res w) -> Inv_st wd st -> esq_ok wd e -> esq_fresh st e ->
+  forall U, id_functional U -> incl (st_recs st) U ->
+  world_wf wd -> bs_pos wd -> world_nonneg wd -> w_good w (st_recs st) -> Inv_st wd st -> esq_ok wd e -> esq_fresh st e ->
   (length e + st_total st < fuel)%nat ->
   exists r, infer_loop fuel ls now pid w st e acc = Ok r.
 Proof.
-  intros wd fuel. induction fuel as [|f IH]; intros ls now pid w st e acc Hw Hp Hr Hwn Hi He Hfr Hf; [exfalso; lia|]. cbn [infer_loop].
+  intros wd fuel. induction fuel as [|f IH]; intros ls now pid w st e acc U HU Hsub Hw Hp Hr Hwn Hi He Hfr Hf; [exfalso; lia|]. cbn [infer_loop].
   destruct e as [|[mid ss] e']; [eauto|].
   inversion He as [|? ? [ssw [Hzw Hincl]] He']; subst. cbn [fst snd] in Hzw, Hincl. cbn [length] in Hf.
   destruct Hfr as [Hnd Hfa]. cbn [map fst] in Hnd. inversion Hnd as [|? ? Hnin Hnd']; subst.
   inversion Hfa as [|? ? [m [Hfm Hfq]] Hfa']; subst. cbn [fst snd] in Hfm, Hfq.
   assert (Hfr' : esq_fresh st e') by (split; assumption).
-  destruct (cw_not_loaded (w_is_available w mid)); [apply IH; try assumption; lia|].
-  destruct (filter (fits w) ss) as [|s rest] eqn:Efil; [apply IH; try assumption; lia|].
+  destruct (cw_not_loaded (w_is_available w mid)); [apply (IH _ _ _ _ _ _ _ U); try assumption; lia|].
+  destruct (filter (fits w) ss) as [|s rest] eqn:Efil; [apply (IH _ _ _ _ _ _ _ U); try assumption; lia|].
   rewrite Hfm.
   assert (Hs_in : In s (filter (fits w) ss)) by (rewrite Efil; left; reflexivity).
   apply filter_In in Hs_in. destruct Hs_in as [Hs_ss Hfit].
@@ -143,10 +155,20 @@ Proof.
   destruct (Hfq s Hs_ss) as [q [Hq Hbq]].
   destruct (get_placements_ok s q m Him Hq Hbq) as [ts [m1 Egp]]. rewrite Egp.
   assert (Hbs : 1 <= s_bs s) by exact (Hp mid ssw s Hzw Hs_w).
-  assert (Ewp : exists w1, (if nonempty ts then w_place w s else Ok w) = Ok w1 /\ res_nonneg (w_res w1)).
-  { destruct (nonempty ts); [|eauto]. apply w_place_ok; [assumption|assumption|assumption|exact (Hr mid ssw s Hzw Hs_w)]. }
-  destruct Ewp as [w1 [Ewp Hwn1]]. rewrite Ewp.
-  destruct (get_placements_spec s m ts m1 Him Egp) as [Him1 [Hsh1 [[s' [q' [Hq' [Hsid [Hts Hlen]]]]] [_ [Hsize _]]]]].
+  destruct (get_placements_spec s m ts m1 Him Egp) as [Him1 [Hsh1 [[s' [q' [Hq' [Hsid [Hts Hlen]]]]] [Hgone [Hsize Hndts]]]]].
+  assert (Hts_recs : forall t, In t ts -> In t (map fst (m_tasks m))).
+  { intros t Ht. destruct (in_queue_key m (s', q') t Him Hq' (Hts t Ht)) as [n Hn]. apply in_map_iff. exists (t, n). split; [reflexivity|assumption]. }
+  assert (Hts_st : incl ts (st_recs st)).
+  { intros t Ht. apply st_recs_in. exists m. split; [assumption|apply Hts_recs; assumption]. }
+  destruct Hwn as [Hwn Hclr].
+  assert (Ewp : exists w1, (if nonempty ts then w_place w s (map t_id ts) else Ok w) = Ok w1 /\ res_nonneg (w_res w1) /\
+                           (w_placed w1 = w_placed w \/ w_placed w1 = w_placed w ++ map t_id ts)).
+  { destruct (nonempty ts); [|exists w; split; [reflexivity|split; [assumption|left; reflexivity]]].
+    destruct (w_place_ok w s (map t_id ts) Hfit Hbs Hwn (Hr mid ssw s Hzw Hs_w)) as [w1 [E1 [E2 E3]]].
+    - intros i Hi' Hc'. apply in_map_iff in Hi'. destruct Hi' as [t [<- Ht]]. apply (Hclr t (Hts_st t Ht)). assumption.
+    - exact Hndts.
+    - exists w1. split; [assumption|]. split; [assumption|right; assumption]. }
+  destruct Ewp as [w1 [Ewp [Hwn1 Hpl1]]]. rewrite Ewp.
   assert (Hcf1 : conforms wd m1).
   { unfold conforms in *. rewrite (shrinks_strategies m1 m Hsh1). destruct Hsh1 as [E _]. rewrite E. assumption. }
   destruct (avail_strats_ok now m1 Him1 (conforms_bs wd m1 Hp Hcf1)) as [m2 [ss2 Eav]]. rewrite Eav.
@@ -173,7 +195,21 @@ Proof.
     - rewrite map_app. cbn [map fst]. eapply Permutation_NoDup; [apply Permutation_cons_append|]. constructor; assumption.
     - apply Forall_app. split; [assumption|]. constructor; [|constructor]. exists m2. cbn [fst snd]. split; [|exact Hav2].
       rewrite <- Hid2. apply find_set_same. rewrite Hid2, <- Hmid. apply in_map. assumption. }
-  apply IH; try assumption.
+  assert (Hrec2 : incl (st_recs (set_model m2 st)) (st_recs st)) by (eapply set_model_recs_incl; eassumption).
+  assert (Hts_gone : forall t, In t ts -> ~ In t (st_recs (set_model m2 st))).
+  { intros t Ht Hc'. destruct (set_model_recs m2 m st Hndst Hf2 t Hc') as [Hin2|[x [Hx [Hne Hin2]]]].
+    - apply (Hgone t Ht). apply (shrinks_keys _ _ Hsh2). apply rec_key. assumption.
+    - assert (Hix : Inv_m x) by (rewrite Forall_forall in Hinv; apply Hinv; assumption).
+      pose proof (rec_model x t Hix Hin2) as E1. pose proof (rec_model m t Him (Hts_recs t Ht)) as E2. lia. }
+  assert (Hgood1 : w_good w1 (st_recs (set_model m2 st))).
+  { split; [assumption|]. intros t' Ht' Hc'. destruct Hpl1 as [E|E]; rewrite E in Hc'.
+    - apply (Hclr t' (Hrec2 t' Ht')). assumption.
+    - apply in_app_or in Hc'. destruct Hc' as [Hc'|Hc']; [apply (Hclr t' (Hrec2 t' Ht')); assumption|].
+      apply in_map_iff in Hc'. destruct Hc' as [t [Eid Ht]].
+      assert (t = t') by (apply HU; [apply Hsub; apply Hts_st; assumption|apply Hsub; apply Hrec2; assumption|assumption]). subst t'.
+      apply (Hts_gone t Ht). assumption. }
+  apply (IH _ _ _ _ _ _ _ U); try assumption.
+  - exact (incl_tran Hrec2 Hsub).
   - destruct (nonempty ss2); [|assumption]. destruct ls; [apply esq_ok_sort|]; assumption.
   - destruct (nonempty ss2); [|assumption]. destruct ls; [apply esq_fresh_sort|]; assumption.
   - assert (Hle : (length (if nonempty ss2 then if ls then sort_esq (set_model m2 st) (e' ++ [(mid, ss2)]) else e' ++ [(mid, ss2)] else e') <= S (length e'))%nat).
@@ -188,73 +224,93 @@ Proof.
   destruct (avail_strats_ok now m) as [m' [ss Ea]]; [assumption|eapply conforms_bs; eassumption|]. rewrite Ea.
   destruct IH as [[st'' e0] Eb]; [assumption|assumption|]. rewrite Eb. eauto.
 Qed.
-Lemma infer_worker_ok : forall wd ls now pid w st acc, world_wf wd -> bs_pos wd -> world_nonneg wd -> res_nonneg (w_res w) -> Inv_st wd st ->
+Lemma infer_worker_ok : forall wd ls now pid w st acc U, id_functional U -> incl (st_recs st) U ->
+  world_wf wd -> bs_pos wd -> world_nonneg wd -> w_good w (st_recs st) -> Inv_st wd st ->
   exists r, infer_worker ls now pid w st acc = Ok r.
 Proof.
-  intros wd ls now pid w st acc Hw Hp Hr Hwn Hi. unfold infer_worker.
+  intros wd ls now pid w st acc U HU Hsub Hw Hp Hr Hwn Hi. unfold infer_worker.
   destruct (build_esq_ok wd now st Hp (st_inv wd st Hi) (st_conf wd st Hi)) as [[st1 e] Eb]. rewrite Eb.
   destruct (build_esq_aux wd now st st1 e (st_inv wd st Hi) (st_conf wd st Hi) Eb) as [F2 [He _]].
-  destruct (forall2_shrinks_facts wd now st1 st Hi F2) as [Hi1 _].
+  destruct (forall2_shrinks_facts wd now st1 st Hi F2) as [Hi1 [_ [Hr1 _]]].
   destruct (build_esq_fresh now st st1 e (st_nodup wd st Hi) (st_inv wd st Hi) Eb) as [B1 [B2 [B3 B4]]].
   assert (Hfr : esq_fresh st1 e).
   { split; [assumption|]. eapply Forall_impl; [|exact B4]. cbn. intros x [m [Hm [Eid Hq]]]. exists m. split; [|assumption].
     rewrite <- Eid. apply find_model_in; [apply (st_nodup wd st1 Hi1)|assumption]. }
   assert (He1 : esq_ok wd (if ls then sort_esq st1 e else e)) by (destruct ls; [apply esq_ok_sort|]; assumption).
   assert (Hfr1 : esq_fresh st1 (if ls then sort_esq st1 e else e)) by (destruct ls; [apply esq_fresh_sort|]; assumption).
+  assert (Hsub1 : incl (st_recs st1) U) by exact (incl_tran Hr1 Hsub).
+  assert (Hwn1 : w_good w (st_recs st1)) by exact (w_good_incl w _ _ Hr1 Hwn).
   match goal with |- context [infer_loop ?fu ?x1 ?x2 ?x3 ?x4 ?x5 ?x6 ?x7] =>
-    destruct (infer_loop_ok wd fu x1 x2 x3 x4 x5 x6 x7 Hw Hp Hr Hwn Hi1 He1 Hfr1) as [[[w2 st2] acc2] El]; [unfold infer_fuel; lia|rewrite El] end.
+    destruct (infer_loop_ok wd fu x1 x2 x3 x4 x5 x6 x7 U HU Hsub1 Hw Hp Hr Hwn1 Hi1 He1 Hfr1) as [[[w2 st2] acc2] El]; [unfold infer_fuel; lia|rewrite El] end.
   eauto.
 Qed.
-Lemma infer_workers_ok : forall wd ls now p ws st acc, world_wf wd -> bs_pos wd -> world_nonneg wd ->
-  Forall (fun w => res_nonneg (w_res w)) ws -> Inv_st wd st ->
+Lemma infer_workers_ok : forall wd ls now p ws st acc U, id_functional U -> incl (st_recs st) U ->
+  world_wf wd -> bs_pos wd -> world_nonneg wd ->
+  Forall (fun w => w_good w (st_recs st)) ws -> Inv_st wd st ->
   Forall (batch_ok wd) acc -> once_inv acc st -> exists r, infer_workers ls now p ws st acc = Ok r.
 Proof.
-  intros wd ls now p ws. induction ws as [|w ws IH]; intros st acc Hw Hp Hr Hwn Hi Hb Ho; cbn [infer_workers]; [eauto|].
+  intros wd ls now p ws. induction ws as [|w ws IH]; intros st acc U HU Hsub Hw Hp Hr Hwn Hi Hb Ho; cbn [infer_workers]; [eauto|].
   inversion Hwn as [|? ? Hwn1 Hwn2]; subst.
-  destruct (infer_worker_ok wd ls now p w st acc Hw Hp Hr Hwn1 Hi) as [[st1 acc1] E1]. rewrite E1.
-  destruct (infer_worker_spec _ _ _ _ _ _ _ _ _ Hw Hi Hb Ho E1) as [A1 [A2 [A3 _]]]. apply IH; assumption.
+  destruct (infer_worker_ok wd ls now p w st acc U HU Hsub Hw Hp Hr Hwn1 Hi) as [[st1 acc1] E1]. rewrite E1.
+  destruct (infer_worker_spec _ _ _ _ _ _ _ _ _ Hw Hi Hb Ho E1) as [A1 [A2 [A3 [A4 _]]]].
+  apply (IH _ _ U); try assumption; [exact (incl_tran A4 Hsub)|].
+  eapply Forall_impl; [|exact Hwn2]. intros x Hx. exact (w_good_incl x _ _ A4 Hx).
 Qed.
-Lemma infer_pools_ok : forall wd ls now ps st acc, world_wf wd -> bs_pos wd -> world_nonneg wd -> pools_nonneg ps -> Inv_st wd st ->
+Lemma infer_pools_ok : forall wd ls now ps st acc U, id_functional U -> incl (st_recs st) U ->
+  world_wf wd -> bs_pos wd -> world_nonneg wd -> pools_good ps (st_recs st) -> Inv_st wd st ->
   Forall (batch_ok wd) acc -> once_inv acc st -> exists r, infer_pools ls now ps st acc = Ok r.
 Proof.
-  intros wd ls now ps. induction ps as [|p ps IH]; intros st acc Hw Hp Hr Hpn Hi Hb Ho; cbn [infer_pools]; [eauto|].
+  intros wd ls now ps. induction ps as [|p ps IH]; intros st acc U HU Hsub Hw Hp Hr Hpn Hi Hb Ho; cbn [infer_pools]; [eauto|].
   inversion Hpn as [|? ? Hpn1 Hpn2]; subst.
-  destruct (infer_workers_ok wd ls now (p_id p) (p_workers p) st acc Hw Hp Hr Hpn1 Hi Hb Ho) as [[st1 acc1] E1]. rewrite E1.
-  destruct (infer_workers_spec _ _ _ _ _ _ _ _ _ Hw Hi Hb Ho (incl_refl _) E1) as [A1 [A2 [A3 _]]]. apply IH; assumption.
+  destruct (infer_workers_ok wd ls now (p_id p) (p_workers p) st acc U HU Hsub Hw Hp Hr Hpn1 Hi Hb Ho) as [[st1 acc1] E1]. rewrite E1.
+  destruct (infer_workers_spec _ _ _ _ _ _ _ _ _ Hw Hi Hb Ho (incl_refl _) E1) as [A1 [A2 [A3 [A4 _]]]].
+  apply (IH _ _ U); try assumption; [exact (incl_tran A4 Hsub)|].
+  eapply Forall_impl; [|exact Hpn2]. intros q Hq. eapply Forall_impl; [|exact Hq]. intros x Hx. exact (w_good_incl x _ _ A4 Hx).
 Qed.
 
 Definition offered_known (wd : world) (inv : invocation) : Prop :=
   Forall (fun t => exists ss, zassoc (t_model t) wd = Some ss /\ ss <> []) (i_offered inv).
+(* what the environment must provide for one invocation: known profiles, a request id names one request, non-negative
+   quantities on the workers, and no pending or offered request is already placed on a worker *)
+Definition inv_ok (wd : world) (inv : invocation) (st : cw_state) : Prop :=
+  offered_known wd inv /\ id_functional (st_recs st ++ i_offered inv) /\ pools_good (inv_pools inv) (st_recs st ++ i_offered inv).
 (* schedule() returns a decision: no exception, no divergence *)
-Lemma cw_schedule_returns : forall wd ls inv st, world_wf wd -> bs_pos wd -> world_nonneg wd -> pools_nonneg (inv_pools inv) ->
-  Inv_st wd st -> offered_known wd inv -> exists st' d, cw_schedule wd ls inv st = Ok (st', d).
+Lemma cw_schedule_returns : forall wd ls inv st, world_wf wd -> bs_pos wd -> world_nonneg wd -> Inv_st wd st -> inv_ok wd inv st ->
+  exists st' d, cw_schedule wd ls inv st = Ok (st', d).
 Proof.
-  intros wd ls inv st Hw Hp Hr Hpn Hi Ho. unfold cw_schedule, inv_pools in *.
+  intros wd ls inv st Hw Hp Hr Hi [Ho [HU Hpn]]. unfold cw_schedule, inv_pools in *.
   destruct (admission_ok wd (i_now inv) (i_offered inv) st [] Ho) as [st1 [c Ea]]. rewrite Ea.
-  destruct (admission_inv _ _ _ _ _ _ _ Hw Hi Ea) as [Hi1 _].
+  destruct (admission_inv _ _ _ _ _ _ _ Hw Hi Ea) as [Hi1 Hrec1].
+  assert (Hsub : incl (st_recs st1) (st_recs st ++ i_offered inv)).
+  { intros t Ht. apply in_or_app. destruct (Hrec1 t Ht) as [Hl|[Hr' _]]; [left|right]; assumption. }
   assert (Ho0 : once_inv [] st1) by (split; [constructor|intros t []]).
+  assert (Hg : forall ps, pools_good ps (st_recs st ++ i_offered inv) -> pools_good ps (st_recs st1)).
+  { intros ps H. eapply Forall_impl; [|exact H]. intros q Hq. eapply Forall_impl; [|exact Hq]. intros x Hx. exact (w_good_incl x _ _ Hsub Hx). }
   destruct (i_load inv) as [[l ps']|];
   match goal with |- context [infer_pools ?a ?b ?c ?d ?e] =>
-    destruct (infer_pools_ok wd a b c d e Hw Hp Hr Hpn Hi1 (Forall_nil _) Ho0) as [[st2 bs] Ei]; rewrite Ei end; eauto.
+    destruct (infer_pools_ok wd a b c d e _ HU Hsub Hw Hp Hr (Hg _ Hpn) Hi1 (Forall_nil _) Ho0) as [[st2 bs] Ei]; rewrite Ei end; eauto.
 Qed.
-Lemma run_returns : forall wd ls invs st, world_wf wd -> bs_pos wd -> world_nonneg wd -> Inv_st wd st ->
-  Forall (fun inv => offered_known wd inv /\ pools_nonneg (inv_pools inv)) invs ->
+(* every invocation of a run finds its environment in order *)
+Fixpoint run_ok (wd : world) (ls : bool) (invs : list invocation) (st : cw_state) : Prop :=
+  match invs with
+  | [] => True
+  | inv :: rest => inv_ok wd inv st /\
+      match cw_schedule wd ls inv st with Ok (st', _) => run_ok wd ls rest st' | Err _ => True end
+  end.
+Lemma run_returns : forall wd ls invs st, world_wf wd -> bs_pos wd -> world_nonneg wd -> Inv_st wd st -> run_ok wd ls invs st ->
   Forall (fun r => exists d, r = Ok d) (cw_run wd ls invs st) /\ length (cw_run wd ls invs st) = length invs.
 Proof.
   intros wd ls invs. induction invs as [|inv rest IH]; intros st Hw Hp Hr Hi Ho; cbn [cw_run]; [split; [constructor|reflexivity]|].
-  inversion Ho as [|? ? [Ho1 Hpn] Ho2]; subst.
-  destruct (cw_schedule_returns wd ls inv st Hw Hp Hr Hpn Hi Ho1) as [st' [d Es]]. rewrite Es.
+  cbn [run_ok] in Ho. destruct Ho as [Ho1 Ho2].
+  destruct (cw_schedule_returns wd ls inv st Hw Hp Hr Hi Ho1) as [st' [d Es]]. rewrite Es in *.
   destruct (cw_schedule_spec _ _ _ _ _ _ Hw Hi Es) as [S1 _]. destruct (IH st' Hw Hp Hr S1 Ho2) as [A B].
   split; [constructor; [eauto|assumption]|cbn [length]; f_equal; assumption].
 Qed.
-Example ex_nonneg : world_nonneg ex_wd /\ Forall (fun inv => offered_known ex_wd inv /\ pools_nonneg (inv_pools inv)) ex_invs.
+Example ex_nonneg : world_nonneg ex_wd.
 Proof.
-  split.
-  - intros mid ss s H Hs. unfold ex_wd in H. cbn [zassoc] in H. destruct (1 =? mid); [|discriminate]. injection H as <-.
-    destruct Hs as [<-|[<-|[]]]; repeat constructor; cbn; lia.
-  - assert (K : forall i d, exists ss, zassoc (t_model (ex_t i d)) ex_wd = Some ss /\ ss <> []) by (intros; eexists; split; [reflexivity|discriminate]).
-    assert (P : pools_nonneg ex_pools) by (repeat constructor; cbn; lia).
-    assert (O : forall now l, Forall (fun t => exists i d, t = ex_t i d) l -> offered_known ex_wd (mkInv now l ex_pools None) /\ pools_nonneg (inv_pools (mkInv now l ex_pools None))).
-    { intros now l Hl. split; [|exact P]. unfold offered_known. cbn [i_offered]. eapply Forall_impl; [|exact Hl]. intros t [i [d ->]]. exact (K i d). }
-    unfold ex_invs. repeat (constructor; [apply O; repeat (constructor; [eexists; eexists; reflexivity|])|]); constructor.
+  intros mid ss s H Hs. unfold ex_wd in H. cbn [zassoc] in H. destruct (1 =? mid); [|discriminate]. injection H as <-.
+  destruct Hs as [<-|[<-|[]]]; repeat constructor; cbn; lia.
 Qed.
+(* the worked run returns at every invocation *)
+Example ex_returns : Forall (fun r => exists d, r = Ok d) (cw_run ex_wd false ex_invs (cw_start ex_wd [1])).
+Proof. vm_compute. repeat constructor; eexists; reflexivity. Qed.
